@@ -103,3 +103,10 @@ check('C18', 'exploration', 'model-based property testing (op histories vs refer
       'Resource.create under generated DEEP_RESOURCE_ATTRIBUTES/DEEP_SERVICE_NAME (mandatory keys, built-in < env < code), '
       'and Deep.start with generated resource-provider plugins compared with the resource in the first poll request.',
       'Sequence-valued attributes on the wire are left to C08.')
+check('C19', 'exploration', 'exhaustive enumeration of the key x source table + property-based parity (code vs environment, differential) + reference classifier',
+      'Every (key, code source, env set/unset) row is resolved against a reference resolver; every documented key is given '
+      'once in code and once as DEEP_<KEY> text and the two agents, started through deep.start(), are compared where the '
+      'setting acts (channel constructor and target, auth metadata, logging config file, poll timer interval / liveness / '
+      'tick arithmetic, frame classification); generated paths are classified under generated prefix sets supplied as list, '
+      'string or environment text and compared with the statement\'s classifier.',
+      'deep.config is reloaded per row; TLS credentials are not exercised, only the secure/insecure choice.')
